@@ -115,7 +115,7 @@ impl AdjacencyMatrix {
         proof { lemma_mat_regular(*self); }
     @after `let mut semidegrees`
         let ghost s0 = semidegrees.remaining();
-    @fn_end
+    @after `let (u, v)`
         proof {
             // s0: the semidegrees in vertex order (a prefix; all of them if the iterator is driven to None); s1: those after the first
             let s1 = semidegrees.remaining();
@@ -128,9 +128,103 @@ impl AdjacencyMatrix {
     @*/
 }
 
+// ---- C12: is_complete is true iff every ordered pair of distinct vertices is an arc ----
+// `is_complete` compares `*self` with `Self::complete(self.order())` through the DERIVED `PartialEq` of
+// `struct AdjacencyMatrix { blocks: Vec<usize>, order: usize }`.  The extractor drops derives, so the derived impl is stated
+// here as an assumed contract (as the derived `Clone` in units/inc/matrix_ops.inc.rs):
+// A: `#[derive(PartialEq)]` is fieldwise.  rustdoc of the PartialEq derive: "When derived on structs, two instances are equal
+// if all fields are equal, and not equal if any fields are not equal."  The fields are compared with their own `==`
+// (`Vec<usize>`: vstd's contract of `Vec::eq`, elementwise; `usize`).
+impl vstd::std_specs::cmp::PartialEqSpecImpl for AdjacencyMatrix {
+    closed spec fn obeys_eq_spec() -> bool { true }
+    closed spec fn eq_spec(&self, other: &Self) -> bool {
+        &&& vstd::std_specs::cmp::PartialEqSpec::eq_spec(&self.blocks, &other.blocks)
+        &&& vstd::std_specs::cmp::PartialEqSpec::eq_spec(&self.order, &other.order)
+    }
+}
+impl PartialEq for AdjacencyMatrix {
+    #[verifier::external_body]
+    fn eq(&self, other: &Self) -> bool { self.blocks == other.blocks && self.order == other.order }
+}
+
+/// the assumed meaning of the derived `==` in terms of the fields' values
+proof fn lemma_matrix_eq_spec(a: AdjacencyMatrix, b: AdjacencyMatrix)
+    ensures vstd::std_specs::cmp::PartialEqSpec::eq_spec(&a, &b) == (a.blocks@ == b.blocks@ && a.order == b.order),
+{
+    if vstd::std_specs::cmp::PartialEqSpec::eq_spec(&a, &b) { assert(a.blocks@ =~= b.blocks@); }
+}
+
+/// two words with the same 64 bits are equal
+proof fn lemma_bits_ext(x: usize, y: usize)
+    requires forall|k: usize| k < 64 ==> #[trigger] bit_of(x, k) == bit_of(y, k),
+    ensures x == y,
+{
+    assert((forall|k: usize| k < 64 ==> #[trigger] bit_of(x, k) == bit_of(y, k)) ==> x == y) by (bit_vector);
+}
+
+/// every cell inside the matrix is the arc bit of its (row, column) pair
+proof fn lemma_cell_is_has(g: AdjacencyMatrix, i: int)
+    requires g.wf(), 0 <= i < g.ncells(),
+    ensures g.cell(i) == g.has(i / (g.order as int), i % (g.order as int)), 0 <= i / (g.order as int) < g.order, 0 <= i % (g.order as int) < g.order,
+{
+    let n = g.order as int;
+    vstd::arithmetic::div_mod::lemma_fundamental_div_mod(i, n);
+    assert(n * (i / n) == (i / n) * n) by (nonlinear_arith);
+    assert(0 <= i / n < n) by (nonlinear_arith) requires (i / n) * n + i % n == i, 0 <= i < n * n, 0 <= i % n < n, n > 0;
+}
+
+/// the representation is canonical: two well-formed matrices of the same order with the same arc relation have the same words
+/// (cells at and above order^2 are clear in both)
+proof fn lemma_matrix_ext(g: AdjacencyMatrix, h: AdjacencyMatrix)
+    requires
+        g.wf(), h.wf(), g.order == h.order,
+        forall|a: int, b: int| #![trigger g.has(a, b)] g.has(a, b) == h.has(a, b),
+    ensures
+        g.blocks@ == h.blocks@,
+{
+    assert forall|i: int| #[trigger] g.cell(i) == h.cell(i) by {
+        if 0 <= i < g.ncells() {
+            lemma_cell_is_has(g, i);
+            lemma_cell_is_has(h, i);
+        }
+    }
+    assert forall|k: int| 0 <= k < g.blocks@.len() implies g.blocks@[k] == h.blocks@[k] by {
+        assert forall|j: usize| j < 64 implies #[trigger] bit_of(g.blocks@[k], j) == bit_of(h.blocks@[k], j) by {
+            let i = 64 * k + j;
+            assert(i / 64 == k && i % 64 == j);
+            assert(g.cell(i) == h.cell(i));
+        }
+        lemma_bits_ext(g.blocks@[k], h.blocks@[k]);
+    }
+    assert(g.blocks@ =~= h.blocks@);
+}
+
 impl AdjacencyMatrix {
-    /*@fn impl=AdjacencyMatrix trait=Arcs name=arcs props=C01,C13
+    /*@fn impl=AdjacencyMatrix trait=IsComplete name=is_complete props=C12,C13
     requires
         self.wf(),
+    ensures
+        r == (forall|a: int, b: int| 0 <= a < self.order && 0 <= b < self.order && a != b ==> self.has(a, b)),
+    @fn_start
+        proof {
+            // for every candidate value c of `Self::complete(self.order())`
+            assert forall|c: AdjacencyMatrix| c.wf() && c.order == self.order
+                && (forall|a: int, b: int| #![trigger c.has(a, b)] c.has(a, b) == complete_arc(self.order as int, a, b))
+                implies #[trigger] vstd::std_specs::cmp::PartialEqSpec::eq_spec(self, &c)
+                    == (forall|a: int, b: int| 0 <= a < self.order && 0 <= b < self.order && a != b ==> self.has(a, b)) by {
+                lemma_matrix_eq_spec(*self, c);
+                if forall|a: int, b: int| 0 <= a < self.order && 0 <= b < self.order && a != b ==> self.has(a, b) {
+                    assert forall|a: int, b: int| #![trigger self.has(a, b)] self.has(a, b) == c.has(a, b) by {
+                        if a == b && 0 <= a < self.order { assert(!self.cell(a * self.order + a)); }
+                    }
+                    lemma_matrix_ext(*self, c);
+                }
+                if self.blocks@ == c.blocks@ {
+                    assert forall|a: int, b: int| 0 <= a < self.order && 0 <= b < self.order && a != b implies self.has(a, b) by {
+                        assert(c.has(a, b));
+                    }
+                }
+            }
+        }
     @*/
 }
